@@ -47,6 +47,7 @@ type ExprGen struct {
 	binds    []bindInfo
 	qdepth   int
 	forced   *target
+	deep     []ref.PathEntry
 }
 
 func NewExprGen(t *rapid.T, root *uni.Node, tag string) *ExprGen {
@@ -146,6 +147,18 @@ func (g *ExprGen) pickTarget() target {
 				return target{parts: parts}
 			}
 		}
+	}
+	if g.deep == nil {
+		g.deep = []ref.PathEntry{}
+		for _, pe := range g.Paths {
+			if len(pe.Parts) >= 2 && usable(pe.Parts) {
+				g.deep = append(g.deep, pe)
+			}
+		}
+	}
+	if len(g.deep) > 0 && g.intn(5, "deepPath") < 2 {
+		pe := g.deep[g.intn(len(g.deep), "dpath")]
+		return g.perturb(target{parts: pe.Parts, node: pe.Node})
 	}
 	for try := 0; try < 6 && len(g.Paths) > 0; try++ {
 		pe := g.Paths[g.intn(len(g.Paths), "path")]
